@@ -236,7 +236,7 @@ def compute(prog, rep):
     why = "no loop multiplying the density by every delta found"
     if ok:
         name = mult[1].target.id
-        base = [dd for dd in b.rd.reaching(name, mult[0]) if dd.kind == "assign"]
+        base = [dd for dd in b.rd.reaching(name, mult[0]) if dd.kind in ("assign", "unpack")]
         okb = len(base) == 1 and b.def_term(base[0])[0] == "call" and b.def_term(base[0])[1] == ("attr", SELF, "cell_averaged_joint_pdf")
         arg0 = sel[0].value.args[0]
         oks = isinstance(arg0, ast.Name) and arg0.id == name and cfg.dominates(cfg.node(mult[0]), cfg.node(sel[0]))
@@ -247,7 +247,7 @@ def compute(prog, rep):
     why = "no loop dividing the selected probability by every delta found"
     if ok:
         name = div[1].target.id
-        base = [dd for dd in b.rd.reaching(name, div[0]) if dd.kind == "assign"]
+        base = [dd for dd in b.rd.reaching(name, div[0]) if dd.kind in ("assign", "unpack")]
         vals = set()
         for dd in base:
             vals |= alts(b.def_term(dd))
